@@ -35,7 +35,8 @@ def one_run(cfg, seed, policy, script=(), census=False, p_switch=0.3):
     import rpyc
     from rpyc.core.channel import Channel
     from rpyc.core import consts
-    ntasks, nmsgs, big, reentrant = cfg
+    ntasks, nmsgs, big, reentrant = cfg[:4]
+    poison = len(cfg) > 4 and cfg[4]
     sched = vsched.Sched(seed=seed, policy=policy, script=script, p_switch=p_switch, max_steps=60000)
     sched.record_census = census
     net = vnet.Net(waiter=vsched.SchedWaiter(sched))
@@ -56,10 +57,28 @@ def one_run(cfg, seed, policy, script=(), census=False, p_switch=0.3):
                 conn._send(consts.MSG_REQUEST, 900 + k, ("re", k, b"r"))
     net.on_write = on_write
 
+    refused = []
+    wrongly_failed = []
+
     def sender(t):
         for i in range(nmsgs[t]):
+            if poison and t == 1 and i == 0:
+                # a value the serializer accepts as plain data but cannot encode (an integer beyond the interpreter's text limit):
+                # the failure belongs to THIS send, in THIS thread, and to nothing else
+                try:
+                    conn._send(consts.MSG_REQUEST, 777, (t, "poison", POISON))
+                    refused.append("accepted")
+                except ValueError:
+                    refused.append("ValueError")
+                except Exception as e:
+                    refused.append(type(e).__name__)
             sent.append((t, i))
-            conn._send(consts.MSG_REQUEST, t * 10 + i, (t, i, pad))
+            try:
+                conn._send(consts.MSG_REQUEST, t * 10 + i, (t, i, pad))
+            except vsched.SchedAbort:
+                raise
+            except Exception as e:
+                wrongly_failed.append((t, i, type(e).__name__))
         returned.append(t)
     for t in range(ntasks):
         sched.spawn(sender, t, name="s%d" % t)
@@ -102,6 +121,11 @@ def one_run(cfg, seed, policy, script=(), census=False, p_switch=0.3):
             mine = [i for (tt, i) in got if tt == t]
             if mine != sorted(mine):
                 bad.append(("order", "messages of one thread left out of order: %r" % (mine,)))
+        if poison:
+            if refused != ["ValueError"]:
+                bad.append(("unencodable-send-not-refused-in-its-own-thread", "the send of a value that cannot be encoded ended with %r in the issuing thread" % (refused,)))
+        if wrongly_failed:
+            bad.append(("send-failed-for-another-message", "an ordinary send raised %r: the failure of another message surfaced here" % (wrongly_failed[:2],)))
         if conn._send_queue:
             bad.append(("stranded", "%d message(s) left in the send queue after all senders returned" % len(conn._send_queue)))
         if net.max_in_send > 1 + (1 if False else 0):
@@ -111,6 +135,10 @@ def one_run(cfg, seed, policy, script=(), census=False, p_switch=0.3):
     res.update(trace=sched.trace_hash(), preemptions=sched.preemptions, steps=sched.steps, census=sched.census,
                maxq=0, reentrant_fired=bool(fired))
     return res
+
+
+import sys as _sys
+POISON = 10 ** ((_sys.get_int_max_str_digits() if hasattr(_sys, "get_int_max_str_digits") and _sys.get_int_max_str_digits() else 4300) + 50)
 
 
 def configs(rng, quick):
@@ -123,6 +151,9 @@ def configs(rng, quick):
             # bursts of re-entrant sends: far more packets queued behind one write than any handful of threads produces
             out.append((ntasks, (2, 1, 1)[:ntasks], big, 40))
         out.append((ntasks, (1, 2, 1)[:ntasks], False, 150))
+        # one sender also issues a message that cannot be encoded, between the others
+        out.append((ntasks, (2, 2, 1)[:ntasks], False, False, True))
+        out.append((ntasks, (1, 1, 2)[:ntasks], True, True, True))
     return out
 
 
@@ -186,6 +217,6 @@ def run(ctx):
 def replay(ctx, w):
     wit = w["witness"]
     cfg = wit["cfg"]
-    cfg = (cfg[0], tuple(cfg[1]), cfg[2], cfg[3])
+    cfg = (cfg[0], tuple(cfg[1]), cfg[2], cfg[3]) + tuple(cfg[4:])
     seed = tuple(wit["seed"]) if isinstance(wit["seed"], list) else wit["seed"]
     record(ctx, one_run(cfg, seed, wit["policy"], script=[tuple(x) for x in wit["script"]]))
